@@ -68,14 +68,20 @@ class C05(Property):
                     s = nu.Scenario()
                     s.node(1, mode="tun-router", claims=["0a000100/24"])
                     s.node(2, mode="tun-router", claims=["0a000200/24"])
-                    s.add("R.1.2", "C.1.2")
+                    s.add("R.1.2")
+                    if rng.random() < 0.5:
+                        s.add("C.1.2")
                     if dual:
                         s.add("R.2.1", "C.2.1")
+                    # who = 0: nothing gets through; 1 / 2: everything that node sends is lost, the other direction works
+                    muted = [1, 2] if who == 0 else [who]
+                    if L:
+                        s.add(*["M.%d.1" % m for m in muted])
                     for _ in range(L):
                         s.t += 1
-                        s.add("T.%d" % s.t, "H.1", "H.2", "Z.%d" % who)
-                        if who != 0:
-                            s.add("A")
+                        s.add("T.%d" % s.t, "H.1", "H.2", "A")
+                    if L:
+                        s.add(*["M.%d.0" % m for m in muted])
                     for _ in range(300 + 120 + 30):
                         s.t += 1
                         s.add("T.%d" % s.t, "H.1", "H.2", "A")
